@@ -14,6 +14,8 @@ CONSTANTS
   CompileMode = "stated"
   Inners <- InnersQuick
   ScopeMode = "inherit"
+  Doors <- DoorsApi
+  HookMode = "stated"
 INIT InitNested
 NEXT Next
 INVARIANTS ScopeInv KeepInv BalanceSheetInv IncomeInv EquityInv TxBalanceInv LayoutInv FilterInv CompileInv SortedInv ExpectInv
